@@ -17,9 +17,11 @@ import (
 	"fmt"
 	"io"
 	"os"
+	"os/signal"
 	"sort"
 	"strings"
 	"sync"
+	"syscall"
 	"testing"
 	"time"
 
@@ -47,6 +49,7 @@ func osPeerMain(kind string, prog []string, rest []string) int {
 			_ = logf.Sync()
 		}
 	}
+	note("pid %d", os.Getpid())
 	var last *conformancev1.ClientCompatRequest
 	read := func() bool {
 		req := &conformancev1.ClientCompatRequest{}
@@ -100,6 +103,8 @@ func osPeerMain(kind string, prog []string, rest []string) int {
 			return 0
 		case "exit1":
 			return 1
+		case "ignoreterm":
+			signal.Ignore(syscall.SIGTERM)
 		case "waitterm":
 			for {
 				time.Sleep(time.Hour)
@@ -125,6 +130,30 @@ func osPeerMain(kind string, prog []string, rest []string) int {
 		}
 	}
 	return 0
+}
+
+// osPeersAlive returns the pids the peer log names that still exist, after waiting up to wait for them to go.
+func osPeersAlive(peerLog string, wait time.Duration) []int {
+	var pids []int
+	for _, line := range strings.Split(peerLog, "\n") {
+		var pid int
+		if _, err := fmt.Sscanf(line, "pid %d", &pid); err == nil && pid > 0 {
+			pids = append(pids, pid)
+		}
+	}
+	deadline := time.Now().Add(wait)
+	for {
+		var alive []int
+		for _, pid := range pids {
+			if syscall.Kill(pid, 0) == nil {
+				alive = append(alive, pid)
+			}
+		}
+		if len(alive) == 0 || time.Now().After(deadline) {
+			return alive
+		}
+		time.Sleep(100 * time.Millisecond)
+	}
 }
 
 func osPeerArgv(kind string, prog []string, logPath string) []string {
@@ -156,6 +185,7 @@ func osClientPrograms(thorough bool) [][]string {
 		{"read", "unknown", "loop"},
 		{"read", "answer", "answer", "loop"},
 		{"read", "closein", "answer", "closeout", "exit0"},
+		{"ignoreterm", "loop", "waitterm"},
 	}
 	maxK := 1
 	if thorough {
@@ -187,6 +217,7 @@ type osClientObs struct {
 	running   bool
 	peerLog   string
 	startErr  string
+	alive     []int
 }
 
 const osWatchdog = 90 * time.Second
@@ -339,6 +370,10 @@ func osClientRun(sc osClientScenario, dir string, idx int) *osClientObs {
 		obs.peerLog = string(data)
 	}
 	_ = os.Remove(logPath)
+	obs.alive = osPeersAlive(obs.peerLog, 30*time.Second)
+	for _, pid := range obs.alive {
+		_ = syscall.Kill(pid, syscall.SIGKILL)
+	}
 	return obs
 }
 
@@ -440,6 +475,9 @@ func osClientJudge(sc osClientScenario, obs *osClientObs) (verdicts []gateVerdic
 				add("answer-lost", "the peer answered %q on a well-formed output stream and the send was accepted, but no callback carried the response (callbacks %+v)", n, obs.callbacks)
 			}
 		}
+	}
+	if len(obs.alive) > 0 {
+		add("peer-process-left-running", "client process(es) %v still exist 30 s after the runner was told to stop and the context was cancelled", obs.alive)
 	}
 	if obs.mainDone && obs.running {
 		add("isRunning-after-exit:osproc", "isRunning() still true 15 s after waitForResponses returned")
@@ -570,6 +608,9 @@ type osRunScenario struct {
 	Suites     string   `json:"suites"`
 	Cfg        string   `json:"cfg"`
 	MaxServers int      `json:"max_servers"`
+	// Delayed: the runner gets the started process only once it has exited again (a peer that dies at once
+	// and a runner that is slow to write to it): forces the order "exit, then write"
+	Delayed bool `json:"delayed,omitempty"`
 }
 
 func osRunScenarios(thorough bool) []osRunScenario {
@@ -584,6 +625,8 @@ func osRunScenarios(thorough bool) []osRunScenario {
 		{"read", "answer", "closeout", "drain"},
 		{"read", "garbage", "drain"},
 		{"stderr", "loop"},
+		{"exit0"},
+		{"ignoreterm", "loop", "waitterm"},
 	}
 	serverProgs := [][]string{
 		{"readall", "respond", "waitterm"},
@@ -594,6 +637,9 @@ func osRunScenarios(thorough bool) []osRunScenario {
 		{"stderr", "exit1"},
 		{"readall", "garbage", "waitterm"},
 		{"readall", "closeout", "waitterm"},
+		{"exit0"},
+		{"readmsg", "exit0"},
+		{"ignoreterm", "readall", "respond", "waitterm"},
 	}
 	type sm struct {
 		cfg, suites string
@@ -610,6 +656,10 @@ func osRunScenarios(thorough bool) []osRunScenario {
 		for _, p := range serverProgs {
 			out = append(out, osRunScenario{ServerProg: p, Suites: sh.suites, Cfg: sh.cfg, MaxServers: sh.max})
 		}
+		for _, p := range [][]string{{"exit0"}, {"exit1"}} {
+			out = append(out, osRunScenario{ClientProg: p, Suites: sh.suites, Cfg: sh.cfg, MaxServers: sh.max, Delayed: true})
+			out = append(out, osRunScenario{ServerProg: p, Suites: sh.suites, Cfg: sh.cfg, MaxServers: sh.max, Delayed: true})
+		}
 	}
 	return out
 }
@@ -622,6 +672,7 @@ type osRunObs struct {
 	expected     map[string]*c05Expect
 	liveAtReturn []int
 	peerLog      string
+	alive        []int
 }
 
 func osRunRun(sc osRunScenario, dir string, idx int) *osRunObs {
@@ -642,13 +693,42 @@ func osRunRun(sc osRunScenario, dir string, idx int) *osRunObs {
 		w.killAll()
 	}()
 	logPath := fmt.Sprintf("%s/peer-%d.log", dir, idx)
+	if sc.Delayed {
+		inner := verifStarterFor
+		verifStarterFor = func(argv []string) processStarter {
+			if argv[0] != "delayed-peer" {
+				return inner(argv)
+			}
+			realStart := runCommand(argv[1:])
+			return func(ctx context.Context, pipeStderr bool) (*process, error) {
+				p, err := realStart(ctx, pipeStderr)
+				if err == nil {
+					// wait (a few seconds at most) until the process has come and gone
+					for i := 0; i < 60; i++ {
+						data, _ := os.ReadFile(logPath)
+						if strings.Contains(string(data), "pid ") && len(osPeersAlive(string(data), 0)) == 0 {
+							break
+						}
+						time.Sleep(50 * time.Millisecond)
+					}
+				}
+				return p, err
+			}
+		}
+	}
 	flags := &Flags{Verbose: true, MaxServers: uint(sc.MaxServers), Parallelism: 4}
 	flags.ClientCommand, flags.ServerCommand = []string{"fake-client"}, []string{"fake-server"}
 	if sc.ClientProg != nil {
 		flags.ClientCommand = osPeerArgv("client", sc.ClientProg, logPath)
+		if sc.Delayed {
+			flags.ClientCommand = append([]string{"delayed-peer"}, flags.ClientCommand...)
+		}
 	}
 	if sc.ServerProg != nil {
 		flags.ServerCommand = osPeerArgv("server", sc.ServerProg, logPath)
+		if sc.Delayed {
+			flags.ServerCommand = append([]string{"delayed-peer"}, flags.ServerCommand...)
+		}
 	}
 	done := make(chan struct{})
 	logP, errP := &c11Printer{}, &c11Printer{}
@@ -676,6 +756,15 @@ func osRunRun(sc osRunScenario, dir string, idx int) *osRunObs {
 		obs.peerLog = string(data)
 	}
 	_ = os.Remove(logPath)
+	if obs.returned {
+		// every process run() started is gone when it returns (give the kernel a moment to reap)
+		obs.alive = osPeersAlive(obs.peerLog, 5*time.Second)
+	} else {
+		obs.alive = nil
+	}
+	for _, pid := range osPeersAlive(obs.peerLog, 0) {
+		_ = syscall.Kill(pid, syscall.SIGKILL)
+	}
 	return obs
 }
 
@@ -686,6 +775,9 @@ func osRunJudge(sc osRunScenario, obs *osRunObs) (verdicts []gateVerdict, outcom
 	if !obs.returned {
 		add("run-never-returns", "run() did not return within %v (peer log %q)", 2*osWatchdog, obs.peerLog)
 		return verdicts, "hang"
+	}
+	if len(obs.alive) > 0 {
+		add("peer-process-left-running", "process(es) %v started by run() still exist 5 s after it returned", obs.alive)
 	}
 	if obs.results == nil {
 		add("osproc-run-no-results", "run() returned no results: %s", obs.runErr)
